@@ -90,8 +90,17 @@ pub struct RenderedFile {
     pub k1_excluded: usize,
 }
 
-fn tag_text(name: &str, rules: &[(String, Option<String>)], v: &str, extra: bool) -> String {
-    let mut s = format!("<block name=\"{name}\" data-v=\"{v}\"");
+fn tag_text(name: &str, rules: &[(String, Option<String>)], v: &str, extra: bool, multibyte: bool) -> String {
+    tag_text_long(name, rules, v, extra, multibyte, false)
+}
+
+/// `long`: an attribute of 600 bytes in front of the edited one (a tag line far beyond any "short line" shortcut)
+fn tag_text_long(name: &str, rules: &[(String, Option<String>)], v: &str, extra: bool, multibyte: bool, long: bool) -> String {
+    // multi-byte text INSIDE the tag, before the attribute that gets edited: byte and character columns differ
+    let mut s = format!("<block name=\"{name}\"{} data-v=\"{v}\"", if multibyte { " data-u=\"список 日本\"" } else { "" });
+    if long {
+        s.push_str(&format!(" data-long=\"{}\"", "x".repeat(600)));
+    }
     for (k, val) in rules {
         s.push(' ');
         s.push_str(k);
@@ -162,13 +171,17 @@ pub fn render_file(fi: usize, f: &TFile) -> RenderedFile {
                 (format!("{o} "), format!(" {c}"))
             }
         };
+        // one tag in seven carries a 600-byte attribute
+        let long_tag = b.inside_at % 7 == 3;
         // start tag line(s): new vs old
-        let tag_new = tag_text(&name, &b.rules, "1Q", true);
+        let tag_new = tag_text_long(&name, &b.rules, "1Q", true, b.multibyte, long_tag);
         let tag_old = if classes & TAG != 0 {
-            match b.tag_kind % 3 {
-                0 => tag_text(&name, &b.rules, "1R", true),
-                1 => tag_text(&name, &b.rules, "1", true),
-                _ => tag_text(&name, &b.rules, "1Q", false),
+            match b.tag_kind % 4 {
+                0 => tag_text_long(&name, &b.rules, "1R", true, b.multibyte, long_tag),
+                1 => tag_text_long(&name, &b.rules, "1", true, b.multibyte, long_tag),
+                2 => tag_text_long(&name, &b.rules, "1Q", false, b.multibyte, long_tag),
+                // the value of the LAST attribute: the edited byte sits two bytes before the tag's `>`
+                _ => tag_new.replace("data-w=\"n\"", "data-w=\"m\""),
             }
         } else {
             tag_new.clone()
@@ -420,7 +433,7 @@ pub fn block_strategy() -> BoxedStrategy<TBlock> {
         prop_oneof![3 => Just(0u8), 3 => Just(INSIDE), 3 => Just(TAG), 2 => Just(ENDTAG), 2 => 0u8..8],
         0u8..4,
         any::<u8>(),
-        0u8..3,
+        0u8..4,
         0u8..2,
         prop_oneof![3 => Just(0u8), 1 => Just(1u8), 1 => Just(2u8), 1 => Just(3u8), 1 => Just(4u8)],
         proptest::bool::weighted(0.25),
@@ -617,7 +630,7 @@ pub fn check_sweep(c: &SweepCase, probe: &Probe) -> Verdict {
 }
 
 pub fn run(run: &mut Run) {
-    run.rule = "random: 1..3 files (js, sh, rs, py, c) x 2..7 uniquely named non-nested blocks (own-line line comments, own-line block comments, everything on one line, a start tag spread over three lines with the edited attribute on the middle one, or both tags inside one multi-line block comment) separated by 5 padding lines, each with 0..2 rules (keep-sorted, keep-unique, line-pattern, line-count, check-lua echo/nil; violating or not by chance) and a *set* of edit classes: inside (replace / insert / pure deletion / blanking of a content line), tag-only (substitute or insert a character of an attribute value, append an attribute), end-tag-only (text after </block>, whitespace in </ block >), plus edits of padding lines (outside) and untouched blocks; multi-byte text before the tag in 25%; real `git diff -U0..10`; optional path arguments. Oracle: (a) `list` in diff mode = exactly the inside/tag-only blocks with is_content_modified exactly for inside; (b) diff-mode diagnostics = full-scan diagnostics restricted to the selected blocks' extents, exit status accordingly; (c) with path arguments = full scan of those files + diff-mode result of the others. enumerated sweep: every byte position of the start tag, the comment text before and after it, the content, the whole end-tag comment and the code after it in 3 one-line block templates (ASCII, multi-byte before the tag, indented) x {substitute, insert, delete}. Non-trivial (random) = a violating untouched block, a violating selected block and a tag-only block; (sweep) = a region boundary or a position where byte and character columns differ.".into();
+    run.rule = "random: 1..3 files (js, sh, rs, py, c) x 2..7 uniquely named non-nested blocks (own-line line comments, own-line block comments, everything on one line, a start tag spread over three lines with the edited attribute on the middle one, or both tags inside one multi-line block comment) separated by 5 padding lines, each with 0..2 rules (keep-sorted, keep-unique, line-pattern, line-count, check-lua echo/nil; violating or not by chance) and a *set* of edit classes: inside (replace / insert / pure deletion / blanking of a content line), tag-only (substitute or insert a character of an attribute value, append an attribute, change the last attribute's value), end-tag-only (text after </block>, whitespace in </ block >), plus edits of padding lines (outside) and untouched blocks; a 600-byte attribute in one tag of seven; multi-byte text before the tag and inside it (an attribute in front of the edited one) in 25%; real `git diff -U0..10`; optional path arguments. Oracle: (a) `list` in diff mode = exactly the inside/tag-only blocks with is_content_modified exactly for inside; (b) diff-mode diagnostics = full-scan diagnostics restricted to the selected blocks' extents, exit status accordingly; (c) with path arguments = full scan of those files + diff-mode result of the others. enumerated sweep: every byte position of the start tag, the comment text before and after it, the content, the whole end-tag comment and the code after it in 3 one-line block templates (ASCII, multi-byte before the tag, indented) x {substitute, insert, delete}. Non-trivial (random) = a violating untouched block, a violating selected block and a tag-only block; (sweep) = a region boundary or a position where byte and character columns differ.".into();
     run.assumptions = vec![
         "pure line deletions are only generated where no earlier net line shift exists in the file (K1 excluded by construction, counted)".into(),
         "the sweep edits the OLD line only (the parsed NEW line is always the intact template); a deletion directly adjoining the start tag's `<` or `>` is unspecified and not judged".into(),
